@@ -33,18 +33,19 @@ import "gopkg.in/yaml.v3"
 type verifPt struct{ line, col int }
 
 type verifLayout struct {
-	lines    []string
-	value    string
-	line     int // value node
-	col      int
-	keyLine  int
-	keyCol   int
-	places   []verifPt // places[i]: where value byte i sits; a line break's place is column len(line)+1 of the line it ends
-	content  int       // value bytes up to and including the last one that is not a trailing '\n'
-	last     int       // last line of the field
-	postFirst int      // line of the first sibling after the field
-	headHit  bool      // some byte of the block header at/after the indicator equals the first value byte
-	shallow  bool      // continuation/content lines are indented less than key column + 2
+	lines     []string
+	value     string
+	line      int // value node
+	col       int
+	keyLine   int
+	keyCol    int
+	places    []verifPt  // places[i]: where value byte i sits; a line break's place is column len(line)+1 of the line it ends
+	content   int        // value bytes up to and including the last one that is not a trailing '\n'
+	last      int        // last line of the field
+	postFirst int        // line of the first sibling after the field
+	style     yaml.Style // yaml.v3 style flag of the value node
+	headHit   bool       // some byte of the block header at/after the indicator equals the first value byte
+	shallow   bool       // continuation/content lines are indented less than key column + 2
 }
 
 func verifSpaces(n int) string {
@@ -108,6 +109,7 @@ func verifGen() verifLayout {
 	L.keyLine = pre + 1
 	L.keyCol = ind + 1
 	L.shallow = cind < 2
+	L.style = []yaml.Style{0, yaml.SingleQuotedStyle, yaml.DoubleQuotedStyle, 0, yaml.LiteralStyle, yaml.LiteralStyle, yaml.LiteralStyle, yaml.FoldedStyle, yaml.FoldedStyle}[style]
 	quoted := style == 1 || style == 2
 	block := style >= 4
 	multi := style == 3 || (block && n2 > 0)
@@ -243,7 +245,9 @@ func verifParse(L verifLayout) (key, val *yaml.Node) {
 	for i := 0; i < pre; i++ {
 		m.Content = append(m.Content, verifScalar(verifPre[0], i+1, ind+1), verifScalar(verifPre[1], i+1, ind+len(verifPre[0])+3))
 	}
-	m.Content = append(m.Content, verifScalar(verifKey, L.keyLine, L.keyCol), verifScalar(L.value, L.line, L.col))
+	vn := verifScalar(L.value, L.line, L.col)
+	vn.Style = L.style
+	m.Content = append(m.Content, verifScalar(verifKey, L.keyLine, L.keyCol), vn)
 	for i := 0; i < post; i++ {
 		m.Content = append(m.Content, verifScalar(verifPost[0], L.postFirst+i, ind+1), verifScalar(verifPost[1], L.postFirst+i, ind+len(verifPost[0])+3))
 	}
@@ -265,6 +269,6 @@ func verifParse(L verifLayout) (key, val *yaml.Node) {
 	verifAssert(key.Value == verifKey && key.Line == L.keyLine && key.Column == L.keyCol, "GENERATOR: yaml.v3 reports a different key node")
 	verifAssert(val.Kind == yaml.ScalarNode && val.Line == L.line && val.Column == L.col, "GENERATOR: yaml.v3 reports a different Line/Column for the value")
 	verifAssert(val.Value == L.value, "GENERATOR: yaml.v3 decodes a different Value")
+	verifAssert(val.Style == L.style, "GENERATOR: yaml.v3 reports a different Style")
 	return key, val
 }
-
